@@ -5,12 +5,14 @@ import (
 	"crypto/sha256"
 	"encoding/binary"
 	"fmt"
+	"strings"
 	"sync"
 	"time"
 
 	"github.com/google/trillian"
 	"github.com/google/trillian/types"
 	"github.com/google/trillian/util/election2"
+	statuspb "google.golang.org/genproto/googleapis/rpc/status"
 	"google.golang.org/grpc"
 	"google.golang.org/grpc/codes"
 	"google.golang.org/grpc/status"
@@ -107,6 +109,26 @@ func newDest(c *Case, tr []truth, full *mtree.Tree, rec *recorder) *dest {
 	d.Log.Publish(2)
 	d.seq = 2
 	d.Log.Intercept = d.intercept
+	if c.SQLStatuses {
+		// trillian v1.7.1 storage/mysql/log_storage.go AddSequencedLeaves never says AlreadyExists: a leaf whose
+		// identity hash or index is taken is reported as FailedPrecondition, whether or not it is the same leaf.
+		d.Log.Mutate = func(call reflog.Call, rsp proto.Message) proto.Message {
+			r, ok := rsp.(*trillian.AddSequencedLeavesResponse)
+			if !ok || call.RPC != "AddSequencedLeaves" {
+				return rsp
+			}
+			for _, q := range r.Results {
+				if q.GetStatus().GetCode() == int32(codes.AlreadyExists) {
+					msg := "conflicting LeafIndex"
+					if strings.Contains(q.Status.Message, "identity") {
+						msg = "conflicting LeafIdentityHash"
+					}
+					q.Status = &statuspb.Status{Code: int32(codes.FailedPrecondition), Message: msg}
+				}
+			}
+			return r
+		}
+	}
 	return d
 }
 
